@@ -9,8 +9,11 @@ EXPLANATION = (
     "every sequence of emitter operations, of any length, in which needs-emission expressions are only created while the emitter "
     "runs, an expression is covered by an emit range iff it needs emission, ranges are non-empty, ascending and pairwise disjoint "
     "(exactly-once coverage; literals, constants, variables, arguments, results never covered) and never reach past the arena; "
-    "with a kernel-checked witness that the hypothesis is necessary. The IR contract itself is decided per instance by an "
-    "executable strict validator written in Lean (Naga.Sem.IRValid + IRTyping, modelled on upstream naga's valid:: rules and "
+    "with a kernel-checked witness that the hypothesis is necessary; "
+    "registry_dedup / getOrCreate_handle / _prefix / _idem: the structural model of internal/registry.TypeRegistry.GetOrCreate "
+    "keeps the arena free of duplicates for every request sequence, returns a handle denoting the requested type, never changes "
+    "existing handles, and is idempotent; tied to the real registry (verif hook) by request sequences biased towards key "
+    "collisions. The IR contract itself is decided per instance by an executable strict validator written in Lean (Naga.Sem.IRValid + IRTyping, modelled on upstream naga's valid:: rules and "
     "independent of naga-go's validator): handles in range and backwards (types, constants, globals, locals, functions, "
     "expressions, global expressions), emit ranges inside the arena / non-overlapping / free of pre-emit kinds, every expression "
     "available (emitted earlier in an enclosing block, or constant, or call result after its call) at each use, break/continue/"
@@ -47,6 +50,27 @@ def run(ck):
         ck.leanchecker(["Naga.Props.C09"])
     if not ck.build_harness() or not ck.driver():
         return
+    # K-tie of the registry model: request sequences through the real TypeRegistry (verif hook)
+    out = ck.harness("c09reg", 3000 if ck.tier == "quick" else 100000)
+    if out is not None and ck.run_driver(["c09"], os.path.join(out, "cases.txt"), os.path.join(out, "model.txt")):
+        cases = common.read_lines(os.path.join(out, "cases.txt"))
+        impl = common.read_lines(os.path.join(out, "impl.txt"))
+        model = common.read_lines(os.path.join(out, "model.txt"))
+        if not (len(cases) == len(impl) == len(model)):
+            ck.tie_broken("c09reg-lines", "line count mismatch", "%d %d %d" % (len(cases), len(impl), len(model)))
+        else:
+            bad = 0
+            for c, a, b in zip(cases, impl, model):
+                ck.case(c, nontrivial=True)
+                if a != b:
+                    bad += 1
+                    if bad <= 2:
+                        ck.violation({"kind": "registry-differs-from-model", "requests": c, "implementation": a, "model": b,
+                                      "how": "TypeRegistry.GetOrCreate on this request sequence returns different handles than the "
+                                             "structural model (a key collision merges distinct types, or equal types are not merged): "
+                                             "two types the module needs are confused / duplicated"}, found_input=True)
+            if cases:
+                ck.samples.append({"requests": cases[0][:300], "implementation": impl[0], "model": model[0]})
     wdir = os.path.join(common.VERIF, "corpus", "C09")
     wit = sorted(os.path.join(wdir, f) for f in os.listdir(wdir)) if os.path.isdir(wdir) else []
     out = ck.harness("c09", N.get(ck.tier, N["quick"]), extra_args=tuple(wit), timeout=7000)
